@@ -17,6 +17,8 @@ TRUSTED_BASE = [
 if REPO not in sys.path:
     sys.path.insert(0, REPO)
 os.environ.setdefault('NBDIME_VERIF', '1')
+import warnings
+warnings.filterwarnings('ignore')
 
 
 class Infra(Exception):
